@@ -28,7 +28,7 @@ use std::collections::{BTreeMap, HashMap};
 
 use multiversx_sc::abi::{ContractAbi, EndpointAbi, EndpointMutabilityAbi};
 use multiversx_sc::contract_base::{CallableContract, ContractAbiProvider, ContractBase};
-use multiversx_sc::types::{Address, ManagedAddress, MultiValueEncoded};
+use multiversx_sc::types::Address;
 use multiversx_sc_scenario::debug_executor::{contract_instance_wrapped_execution, ContractContainer};
 use multiversx_sc_scenario::multiversx_chain_vm::{
     tx_execution::execute_current_tx_context_input,
@@ -37,7 +37,7 @@ use multiversx_sc_scenario::multiversx_chain_vm::{
     world_mock::{AccountData, BlockchainState, EsdtInstanceMetadata},
 };
 use multiversx_sc_scenario::scenario::run_vm::ScenarioVMRunner;
-use multiversx_sc_scenario::{managed_address, managed_biguint, managed_token_id, DebugApi};
+use multiversx_sc_scenario::DebugApi;
 
 // =======================================================================================
 // VM wrapper
@@ -355,14 +355,537 @@ fn abi_dump() -> bool {
     }
 }
 
+// =======================================================================================
+// universes: deterministic deployed worlds, one per (contract, variant, state)
+// =======================================================================================
+pub const ROLES: [&str; 9] = ["owner", "admin", "pauser", "wsc", "user", "agent", "revoked", "blacklisted", "router"];
+
+fn roles_of(c: &str) -> &'static [&'static str] {
+    if c == "pair" { &ROLES[..] } else { &ROLES[..8] }
+}
+fn states_of(c: &str) -> &'static [&'static str] {
+    match c {
+        "pair" | "farm" | "fwlr" | "staking" => &["inactive", "partial", "active"],
+        "router" | "energy" | "fees" => &["inactive", "active"],
+        _ => &["active"],
+    }
+}
+
+#[derive(Clone)]
+pub struct Uni {
+    snap: BlockchainState,
+    sc: Address,
+    a: BTreeMap<String, Address>,
+    n: BTreeMap<String, u64>,
+}
+impl Uni {
+    fn addr(&self, k: &str) -> &Address {
+        self.a.get(k).unwrap_or_else(|| panic!("no address {k}"))
+    }
+    fn num(&self, k: &str) -> u64 {
+        *self.n.get(k).unwrap_or_else(|| panic!("no number {k}"))
+    }
+}
+
+pub struct Call {
+    args: Vec<Vec<u8>>,
+    pay: Vec<TxTokenTransfer>,
+    egld: BigUint,
+}
+fn call(args: Vec<Vec<u8>>) -> Option<Call> {
+    Some(Call { args, pay: vec![], egld: BigUint::zero() })
+}
+fn callp(args: Vec<Vec<u8>>, pay: Vec<TxTokenTransfer>) -> Option<Call> {
+    Some(Call { args, pay, egld: BigUint::zero() })
+}
+
+const FIRST: &[u8] = b"FIRST-abcdef";
+const SECOND: &[u8] = b"SECOND-abcdef";
+const THIRD: &[u8] = b"THIRD-abcdef";
+const LP: &[u8] = b"LPTOK-abcdef";
+const REW: &[u8] = b"REW-abcdef";
+const FARMING: &[u8] = b"FARMING-abcdef";
+const FARMTOK: &[u8] = b"FARM-abcdef";
+const LOCKED: &[u8] = b"LOCKED-abcdef";
+const LEGACY: &[u8] = b"LEGACY-abcdef";
+const UNBOND: &[u8] = b"UNBOND-abcdef";
+
+fn b(x: u64) -> BigUint {
+    BigUint::from(x)
+}
+
+struct Builder<'a> {
+    vm: &'a mut Vm,
+    a: BTreeMap<String, Address>,
+    n: BTreeMap<String, u64>,
+}
+impl<'a> Builder<'a> {
+    fn new(vm: &'a mut Vm) -> Self {
+        *vm.state_mut() = BlockchainState::default();
+        let mut bd = Builder { vm, a: BTreeMap::new(), n: BTreeMap::new() };
+        for r in ["owner", "admin", "pauser", "user", "agent", "revoked", "blacklisted", "fresh", "fresh2"] {
+            let x = bd.vm.user();
+            bd.a.insert(r.to_string(), x);
+        }
+        for r in ["wsc", "router", "fresh_sc"] {
+            let x = bd.vm.sc_account(None, None);
+            bd.a.insert(r.to_string(), x);
+        }
+        bd
+    }
+    fn ad(&self, k: &str) -> Address {
+        self.a.get(k).unwrap_or_else(|| panic!("no address {k}")).clone()
+    }
+    fn deploy(&mut self, name: &str, owner: &str, code: &str) -> Address {
+        let o = self.ad(owner);
+        let x = self.vm.sc_account(Some(&o), Some(code));
+        self.a.insert(name.to_string(), x.clone());
+        x
+    }
+    /// by-name call that must succeed (setup)
+    fn ok(&mut self, from: &str, to: &str, func: &str, args: Vec<Vec<u8>>, pay: &[TxTokenTransfer]) -> TxResult {
+        let (f, t) = (self.ad(from), self.ad(to));
+        let r = self.vm.call(&f, &t, func, args, pay, &BigUint::zero());
+        assert!(r.result_status == 0, "setup call {to}.{func} by {from} failed: {} {}", r.result_status, r.result_message);
+        r
+    }
+    fn store(&mut self, sc: &str, key: &[u8], val: Vec<u8>) {
+        let a = self.ad(sc);
+        self.vm.state_mut().accounts.get_mut(&vma(&a)).unwrap().storage.insert(key.to_vec(), val);
+    }
+    fn fund_all(&mut self, token: &[u8], v: &BigUint) {
+        for r in ROLES.iter().chain(["fresh"].iter()) {
+            let a = self.ad(r);
+            self.vm.set_esdt(&a, token, v);
+        }
+    }
+    fn finish(self, sc: &str) -> Uni {
+        Uni { snap: self.vm.snapshot(), sc: self.ad(sc), a: self.a, n: self.n }
+    }
+}
+
+fn register_all(vm: &mut Vm) {
+    vm.register("pair", pair::contract_obj::<DebugApi>());
+    vm.register("router", router::contract_obj::<DebugApi>());
+    vm.register("farm", farm::contract_obj::<DebugApi>());
+    vm.register("fwlr", farm_with_locked_rewards::contract_obj::<DebugApi>());
+    vm.register("staking", farm_staking::contract_obj::<DebugApi>());
+    vm.register("energy", energy_factory::contract_obj::<DebugApi>());
+    vm.register("fees", fees_collector::contract_obj::<DebugApi>());
+    vm.register("hub", permissions_hub::contract_obj::<DebugApi>());
+    vm.register("unstake", token_unstake::contract_obj::<DebugApi>());
+    vm.register("lkmex", lkmex_transfer::contract_obj::<DebugApi>());
+    vm.register("efmock", energy_factory_mock::contract_obj::<DebugApi>());
+    vm.register("simplelock", simple_lock::contract_obj::<DebugApi>());
+}
+
+// ---------------------------------------------------------------------------------------
+// pair
+// ---------------------------------------------------------------------------------------
+fn build_pair(vm: &mut Vm, variant: &str, amt: u64) -> Uni {
+    let mut bd = Builder::new(vm);
+    bd.deploy("pair", "router", "pair");
+    bd.deploy("lock", "owner", "simplelock");
+    let adder = if variant == "adder" { bd.ad("user") } else { Address::zero() };
+    // the router deploys the pair: router + router owner get OWNER|PAUSE, `admin` gets ADMIN
+    bd.ok("router", "pair", "init", vec![FIRST.to_vec(), SECOND.to_vec(), a_addr(&bd.ad("router")), a_addr(&bd.ad("owner")),
+        a_u64(300), a_u64(50), a_addr(&adder), a_addr(&bd.ad("admin"))], &[]);
+    let pair = bd.ad("pair");
+    bd.vm.set_roles(&pair, LP, &["ESDTRoleLocalMint", "ESDTRoleLocalBurn"]);
+    bd.vm.set_roles(&pair, FIRST, &["ESDTRoleLocalBurn"]);
+    bd.vm.set_roles(&pair, SECOND, &["ESDTRoleLocalBurn"]);
+    let big = BigUint::from(10u64).pow(15);
+    bd.fund_all(FIRST, &big);
+    bd.fund_all(SECOND, &big);
+    bd.ok("owner", "pair", "addToPauseWhitelist", vec![a_addr(&bd.ad("pauser"))], &[]);
+    bd.ok("owner", "pair", "whitelist", vec![a_addr(&bd.ad("wsc"))], &[]);
+    bd.ok("owner", "pair", "addTrustedSwapPair", vec![a_addr(&bd.ad("fresh_sc")), THIRD.to_vec(), FIRST.to_vec()], &[]);
+    if variant != "nolp" {
+        bd.ok("owner", "pair", "setLpTokenIdentifier", vec![LP.to_vec()], &[]);
+    }
+    if variant == "std" {
+        bd.ok("pauser", "pair", "resume", vec![], &[]);
+        bd.vm.set_round(10);
+        let base = b(1_000_000 + amt);
+        bd.ok("user", "pair", "addLiquidity", vec![a_u64(1), a_u64(1)], &[esdt(FIRST, 0, &base), esdt(SECOND, 0, &(&base * 2u32))]);
+        bd.vm.set_round(20);
+        for r in ROLES {
+            bd.ok(r, "pair", "addLiquidity", vec![a_u64(1), a_u64(1)], &[esdt(FIRST, 0, &b(100_000)), esdt(SECOND, 0, &b(200_000))]);
+        }
+        bd.vm.set_round(30);
+        bd.ok("user", "pair", "swapTokensFixedInput", vec![SECOND.to_vec(), a_u64(1)], &[esdt(FIRST, 0, &b(1000))]);
+        bd.vm.set_round(40);
+        bd.ok("user", "pair", "swapTokensFixedInput", vec![FIRST.to_vec(), a_u64(1)], &[esdt(SECOND, 0, &b(1000))]);
+        bd.vm.set_round(50);
+    }
+    bd.n.insert("amt".into(), 1000 + amt % 1000);
+    bd.finish("pair")
+}
+
+fn pair_call(u: &Uni, e: &str, role: &str) -> Option<Call> {
+    let amt = b(u.num("amt"));
+    let me = u.addr(role);
+    match e {
+        "setLpTokenIdentifier" => call(vec![LP.to_vec()]),
+        "whitelist" => call(vec![a_addr(u.addr("fresh"))]),
+        "removeWhitelist" => call(vec![a_addr(u.addr("wsc"))]),
+        "addTrustedSwapPair" => call(vec![a_addr(u.addr("fresh_sc")), THIRD.to_vec(), SECOND.to_vec()]),
+        "removeTrustedSwapPair" => call(vec![THIRD.to_vec(), FIRST.to_vec()]),
+        "setupFeesCollector" => call(vec![a_addr(u.addr("fresh_sc")), a_u64(50_000)]),
+        "setFeeOn" => call(vec![a_bool(true), a_addr(u.addr("fresh")), FIRST.to_vec()]),
+        "setStateActiveNoSwaps" => call(vec![]),
+        "setFeePercents" => call(vec![a_u64(400), a_u64(100)]),
+        "updateAndGetTokensForGivenPositionWithSafePrice" => call(vec![a_u64(1000)]),
+        "updateAndGetSafePrice" => call(vec![a_payment(FIRST, 0, &b(1000))]),
+        "setLockingDeadlineEpoch" | "setUnlockEpoch" => call(vec![a_u64(5)]),
+        "setLockingScAddress" => call(vec![a_addr(u.addr("lock"))]),
+        "addAdmin" => call(vec![a_addr(u.addr("fresh"))]),
+        "removeAdmin" => call(vec![a_addr(u.addr("admin"))]),
+        "updateOwnerOrAdmin" => call(vec![a_addr(u.addr("owner"))]),
+        "addToPauseWhitelist" => call(vec![a_addr(u.addr("fresh"))]),
+        "removeFromPauseWhitelist" => call(vec![a_addr(u.addr("pauser"))]),
+        "pause" | "resume" => call(vec![]),
+        "addInitialLiquidity" | "addInitialLiquidity@adder" => callp(vec![], vec![esdt(FIRST, 0, &(&amt * 100u32)), esdt(SECOND, 0, &(&amt * 200u32))]),
+        "addLiquidity" => callp(vec![a_u64(1), a_u64(1)], vec![esdt(FIRST, 0, &amt), esdt(SECOND, 0, &(&amt * 2u32))]),
+        "removeLiquidity" => callp(vec![a_u64(1), a_u64(1)], vec![esdt(LP, 0, &amt)]),
+        "removeLiquidityAndBuyBackAndBurnToken" => callp(vec![FIRST.to_vec()], vec![esdt(LP, 0, &amt)]),
+        "swapNoFeeAndForward" => callp(vec![SECOND.to_vec(), a_addr(me)], vec![esdt(FIRST, 0, &amt)]),
+        "swapTokensFixedInput" => callp(vec![SECOND.to_vec(), a_u64(1)], vec![esdt(FIRST, 0, &amt)]),
+        "swapTokensFixedOutput" => callp(vec![SECOND.to_vec(), a_u64(10)], vec![esdt(FIRST, 0, &amt)]),
+        // views with arguments
+        "getReserve" => call(vec![FIRST.to_vec()]),
+        "getLpTokensSafePriceByDefaultOffset" => call(vec![a_addr(&u.sc), a_u64(1000)]),
+        "getLpTokensSafePriceByRoundOffset" | "getLpTokensSafePriceByTimestampOffset" => call(vec![a_addr(&u.sc), a_u64(10), a_u64(1000)]),
+        "getLpTokensSafePrice" => call(vec![a_addr(&u.sc), a_u64(30), a_u64(45), a_u64(1000)]),
+        "getSafePriceByDefaultOffset" => call(vec![a_addr(&u.sc), a_payment(FIRST, 0, &b(1000))]),
+        "getSafePriceByRoundOffset" | "getSafePriceByTimestampOffset" => call(vec![a_addr(&u.sc), a_u64(10), a_payment(FIRST, 0, &b(1000))]),
+        "getSafePrice" => call(vec![a_addr(&u.sc), a_u64(30), a_u64(45), a_payment(FIRST, 0, &b(1000))]),
+        "getPriceObservation" => call(vec![a_addr(&u.sc), a_u64(35)]),
+        "getPermissions" => call(vec![a_addr(me)]),
+        "getTokensForGivenPosition" => call(vec![a_u64(1000)]),
+        "getAmountOut" | "getEquivalent" => call(vec![FIRST.to_vec(), a_u64(1000)]),
+        "getAmountIn" => call(vec![SECOND.to_vec(), a_u64(1000)]),
+        _ => None,
+    }
+}
+
+// =======================================================================================
+// the world
+// =======================================================================================
+#[derive(Clone, Copy, PartialEq, Eq, Debug)]
+enum Class {
+    Config,       // configuration / admin: needs a privileged role
+    UserFunds,    // user operation moving funds: Active only
+    PairLiquidity,// pair add/remove liquidity: Active or PartialActive
+    OnBehalfHub,  // hub authorisation of the caller by the position owner
+    OnBehalfSc,   // original caller supplied: whitelisted SC only
+    ContractOnly, // contract-to-contract trust list
+    Bootstrap,    // addInitialLiquidity
+    View,
+    Open,         // callable by anyone, moves no user funds (energy refresh, safe price update)
+    Never,        // not callable by any external role (self / other contract only)
+}
+
+fn base_name(e: &str) -> &str {
+    e.split('@').next().unwrap()
+}
+
+/// Rust-side classification used ONLY by the oracle (independent of the Lean table):
+/// default from the ABI flags, explicit list for the rest.
+fn class_of(abi: &ContractAbi, c: &str, e: &str) -> Class {
+    use Class::*;
+    if e.contains("@orig") {
+        return OnBehalfSc;
+    }
+    let bn = base_name(e);
+    let ep = abi.endpoints.iter().find(|x| x.name == bn);
+    let explicit = match (c, bn) {
+        (_, "calculateRewardsForGivenPosition") => Some(Never),
+        ("pair", "addInitialLiquidity") => Some(Bootstrap),
+        ("pair", "addLiquidity" | "removeLiquidity") => Some(PairLiquidity),
+        ("pair", "swapTokensFixedInput" | "swapTokensFixedOutput") => Some(UserFunds),
+        ("pair", "removeLiquidityAndBuyBackAndBurnToken" | "swapNoFeeAndForward") => Some(ContractOnly),
+        ("pair", "updateAndGetTokensForGivenPositionWithSafePrice" | "updateAndGetSafePrice") => Some(View),
+        _ => None,
+    };
+    if let Some(k) = explicit {
+        return k;
+    }
+    match ep {
+        Some(x) if is_readonly(x) => View,
+        _ => Config,
+    }
+}
+
+fn variant_of(c: &str, e: &str) -> &'static str {
+    match (c, e) {
+        ("pair", "addInitialLiquidity") => "fresh",
+        ("pair", "addInitialLiquidity@adder") => "adder",
+        ("pair", "setLpTokenIdentifier") => "nolp",
+        _ => "std",
+    }
+}
+
+/// endpoint variants exercised in addition to the plain ABI endpoints
+const VARIANTS: [(&str, &str); 1] = [("pair", "addInitialLiquidity@adder")];
+
+struct World {
+    vm: Vm,
+    amt: u64,
+    bases: HashMap<String, Uni>,
+    unis: HashMap<String, Uni>,
+    abis: BTreeMap<&'static str, ContractAbi>,
+}
+
+impl World {
+    fn new(header: &str) -> Self {
+        let mut vm = Vm::new();
+        register_all(&mut vm);
+        let mut abis = BTreeMap::new();
+        for c in CONTRACTS {
+            abis.insert(c, abi_of(c));
+        }
+        World { vm, amt: kv_u64(header, "amt", 0), bases: HashMap::new(), unis: HashMap::new(), abis }
+    }
+
+    fn base(&mut self, c: &str, variant: &str) -> Uni {
+        let key = format!("{c}/{variant}");
+        if let Some(u) = self.bases.get(&key) {
+            return u.clone();
+        }
+        let u = match c {
+            "pair" => build_pair(&mut self.vm, variant, self.amt),
+            _ => panic!("no universe for {c}"),
+        };
+        self.bases.insert(key, u.clone());
+        u
+    }
+
+    fn uni(&mut self, c: &str, variant: &str, state: &str) -> Uni {
+        let key = format!("{c}/{variant}/{state}");
+        if let Some(u) = self.unis.get(&key) {
+            return u.clone();
+        }
+        let mut u = self.base(c, variant);
+        // the kill switch is written directly into the contract's storage
+        let (k, v): (&[u8], Vec<u8>) = match (c, state) {
+            ("pair" | "farm" | "fwlr" | "staking", "inactive") => (b"state", vec![]),
+            ("pair" | "farm" | "fwlr" | "staking", "active") => (b"state", vec![1]),
+            ("pair" | "farm" | "fwlr" | "staking", "partial") => (b"state", vec![2]),
+            ("router", "inactive") => (b"state", vec![]),
+            ("router", "active") => (b"state", vec![1]),
+            ("energy" | "fees", "inactive") => (b"pause_module:paused", vec![1]),
+            ("energy" | "fees", "active") => (b"pause_module:paused", vec![]),
+            _ => (b"", vec![]),
+        };
+        if !k.is_empty() {
+            let acc = u.snap.accounts.get_mut(&vma(&u.sc)).unwrap();
+            if v.is_empty() {
+                acc.storage.remove(k);
+            } else {
+                acc.storage.insert(k.to_vec(), v);
+            }
+        }
+        self.unis.insert(key, u.clone());
+        u
+    }
+
+    fn build_call(&self, u: &Uni, c: &str, e: &str, role: &str) -> Option<Call> {
+        let specific = match c {
+            "pair" => pair_call(u, e, role),
+            _ => None,
+        };
+        if specific.is_some() {
+            return specific;
+        }
+        // endpoints without inputs need nothing
+        let ep = self.abis[c].endpoints.iter().find(|x| x.name == base_name(e))?;
+        if ep.inputs.is_empty() && ep.payable_in_tokens.is_empty() {
+            return call(vec![]);
+        }
+        None
+    }
+
+    /// best-effort arguments for a call that must be REJECTED before they matter
+    fn default_call(&self, u: &Uni, c: &str, e: &str) -> Call {
+        let ep = self.abis[c].endpoints.iter().find(|x| x.name == base_name(e)).unwrap();
+        let mut args = vec![];
+        for i in ep.inputs.iter() {
+            let t = i.type_names.abi.as_str();
+            if t.starts_with("optional<") || t.starts_with("variadic<") {
+                continue;
+            }
+            args.push(match t {
+                "Address" => a_addr(u.addr("fresh")),
+                "TokenIdentifier" => FIRST.to_vec(),
+                "bool" => vec![1],
+                "bytes" => b"x".to_vec(),
+                _ => vec![1],
+            });
+        }
+        Call { args, pay: vec![], egld: BigUint::zero() }
+    }
+
+    fn exec(&mut self, tr: &mut Trace, text: &str) {
+        let n = tr.op(text);
+        let w: Vec<&str> = text.split_whitespace().collect();
+        let (kind, c, e, role, state) = (w[0], w[1], w[2], w[3], w[4]);
+        let key = format!("{c}.{e}.{role}.{state}");
+        let class = class_of(&self.abis[c], c, e);
+        tr.count(&format!("class.{:?}", class));
+        if kind == "nocall" {
+            tr.count("cell.unconstructible");
+            tr.count(&format!("unconstructible.{c}.{e}"));
+            tr.res_ok(n, "nocall", "-");
+            return;
+        }
+        let u = self.uni(c, variant_of(c, e), state);
+        self.vm.restore(&u.snap);
+        let cl = match self.build_call(&u, c, e, role) {
+            Some(cl) if kind == "cell" => cl,
+            _ => self.default_call(&u, c, e),
+        };
+        let pre = digest(self.vm.state());
+        let from = u.addr(role).clone();
+        let res = self.vm.call(&from, &u.sc, base_name(e), cl.args.clone(), &cl.pay, &cl.egld);
+        let ok = res.result_status == 0;
+        let post = digest(self.vm.state());
+        tr.count(&format!("cell.{}", if ok { "ok" } else { "err" }));
+        tr.count(&format!("{c}.{}", if ok { "ok" } else { "err" }));
+        if std::env::var("VERIF_VERBOSE").is_ok() && !ok {
+            eprintln!("{key}: {} {}", res.result_status, res.result_message);
+        }
+        // ---------------- oracles: C19's rules evaluated directly on the real outcome ----
+        let privileged = matches!(role, "owner" | "admin" | "pauser" | "router");
+        if !ok && pre != post {
+            tr.fail("C19", "rejected_call_changes_state", e, &format!("{key}: chain state differs after a failed call"));
+        }
+        if ok {
+            match class {
+                Class::Config if !privileged => {
+                    tr.fail("C19", "admin_needs_role", e, &format!("{key}: configuration endpoint succeeded for an unprivileged caller"))
+                }
+                Class::UserFunds if state != "active" => {
+                    tr.fail("C19", "paused_blocks_funds", e, &format!("{key}: fund-moving user endpoint succeeded while the contract is {state}"))
+                }
+                Class::PairLiquidity if state == "inactive" => {
+                    tr.fail("C19", "paused_blocks_funds", e, &format!("{key}: liquidity operation succeeded on an inactive pair"))
+                }
+                Class::Bootstrap if state != "inactive" => {
+                    tr.fail("C19", "bootstrap_only_inactive", e, &format!("{key}: initial liquidity accepted on a non-inactive pair"))
+                }
+                Class::OnBehalfHub if role != "agent" => {
+                    tr.fail("C19", "on_behalf_rules", e, &format!("{key}: on-behalf call accepted without a valid hub authorisation"))
+                }
+                Class::OnBehalfSc | Class::ContractOnly if role != "wsc" => {
+                    tr.fail("C19", "on_behalf_rules", e, &format!("{key}: contract-only call accepted from a non-whitelisted caller"))
+                }
+                Class::View if pre != post => {
+                    tr.fail("C19", "view_changes_state", e, &format!("{key}: a view changed the chain state"))
+                }
+                Class::Never => tr.fail("C19", "never_callable", e, &format!("{key}: endpoint reserved to the contract itself succeeded")),
+                _ => {}
+            }
+            if c == "pair" && state == "partial" && class == Class::UserFunds {
+                tr.fail("C19", "partial_pair_liquidity_only", e, &format!("{key}: swap succeeded on a partially active pair"));
+            }
+        }
+        if ok {
+            tr.res_ok(n, &key, "-");
+        } else {
+            tr.res_err(n);
+        }
+    }
+}
+
+fn shuffle<T>(rng: &mut Rng, v: &mut [T]) {
+    for i in (1..v.len()).rev() {
+        let j = rng.below(i as u64 + 1) as usize;
+        v.swap(i, j);
+    }
+}
+
+fn gen(a: &Args, tr: &mut Trace) {
+    let mut rng = Rng::new(a.seed);
+    let only = a.extra.get("contract").cloned();
+    for c in CONTRACTS {
+        if let Some(o) = &only {
+            if o != c {
+                continue;
+            }
+        }
+        let amt = rng.below(100_000);
+        let header = format!("contract={c} amt={amt}");
+        tr.world(&format!("access {header}"));
+        let mut w = World::new(&header);
+        let mut eps: Vec<String> = w.abis[c].endpoints.iter().map(|e| e.name.clone()).collect();
+        for (vc, ve) in VARIANTS {
+            if vc == c {
+                eps.push(ve.to_string());
+            }
+        }
+        let mut cells: Vec<String> = vec![];
+        for e in eps.iter() {
+            let class = class_of(&w.abis[c], c, e);
+            // can a valid call be constructed at all? (probe on the active universe with the owner)
+            let u = w.uni(c, variant_of(c, e), "active");
+            let constructible = w.build_call(&u, c, e, "owner").is_some();
+            for role in roles_of(c) {
+                for st in states_of(c) {
+                    let privileged = matches!(*role, "owner" | "admin" | "pauser" | "router");
+                    let kind = if constructible {
+                        "cell"
+                    } else if (class == Class::Config && !privileged) || class == Class::Never {
+                        "cellx" // must be rejected whatever the arguments
+                    } else {
+                        "nocall"
+                    };
+                    cells.push(format!("{kind} {c} {e} {role} {st}"));
+                }
+            }
+        }
+        shuffle(&mut rng, &mut cells);
+        for cell in cells {
+            w.exec(tr, &cell);
+        }
+    }
+}
+
+fn replay(a: &Args, tr: &mut Trace) {
+    let hs = read_ops(a.file.as_ref().expect("--file"));
+    for h in hs {
+        let header = h.header.strip_prefix("access").unwrap_or(&h.header).trim().to_string();
+        tr.world(&format!("access {header}"));
+        let mut w = World::new(&header);
+        for (_k, text) in h.lines {
+            w.exec(tr, &text);
+        }
+    }
+}
+
 fn main() {
     let a = parse_args();
-    match a.mode.as_str() {
-        "abi-dump" => {
-            let changed = abi_dump();
-            println!("Gen/Endpoints.lean {}", if changed { "rewritten" } else { "unchanged" });
-        }
-        _ => panic!("not yet"),
+    if a.mode == "abi-dump" {
+        let changed = abi_dump();
+        println!("Gen/Endpoints.lean {}", if changed { "rewritten" } else { "unchanged" });
+        return;
     }
-    let _ = (BTreeMap::<u8, u8>::new(), HashMap::<u8, u8>::new());
+    if std::env::var("VERIF_VERBOSE").is_err() {
+        std::panic::set_hook(Box::new(|_| {}));
+    }
+    let mut tr = Trace::create(&a.out);
+    let t0 = std::time::Instant::now();
+    match a.mode.as_str() {
+        "gen" => {
+            let changed = abi_dump();
+            if changed {
+                tr.count("inventory.rewritten");
+            }
+            gen(&a, &mut tr)
+        }
+        "replay" => replay(&a, &mut tr),
+        m => panic!("unknown mode {m}"),
+    }
+    let el = t0.elapsed().as_secs_f64();
+    tr.finish(&[("wall_s", format!("{el:.3}"))]);
 }
